@@ -107,16 +107,40 @@ def _t_variants(pred):
     return p
 
 
+def resolved_sources(spec):
+    """the selections of an amalgamate case, each with the file that hosts it, the matrix it reads (the file's main
+    matrix or its other one) and the layer name to pass"""
+    hosts = {s.get('id', k): s for k, s in enumerate(spec['sources']) if 'file' in s}
+    out = []
+    for k, s in enumerate(spec['sources']):
+        if 'file' in s:
+            f = s['file']
+            out.append({'host': s.get('id', k), 'file': f, 'rows': s['rows'], 'x': _x_of(f),
+                        'layer': 'X' if f['layer'] is None else f['layer'], 'reused': False, 'other': False})
+        else:
+            h = hosts[s['reuse']]
+            f = h['file']
+            if s['other_layer']:
+                x = np.array(h['alt_x'], dtype=np.dtype(f['dtype']))
+                layer = 'alt' if f['layer'] is None else 'X'
+            else:
+                x = _x_of(f)
+                layer = 'X' if f['layer'] is None else f['layer']
+            out.append({'host': s['reuse'], 'file': f, 'rows': s['rows'], 'x': x, 'layer': layer, 'reused': True,
+                        'other': bool(s['other_layer'])})
+    return out
+
+
 def _t_amalgamate_empty_source(spec):
     if spec.get('kind') != 'F' or spec['op'] != 'amalgamate' or not spec['dst_sparse']:
         return False
-    return any(int((_x_of(s['file'])[s['rows']] != 0).sum()) == 0 for s in spec['sources'])
+    return any(int((s['x'][s['rows']] != 0).sum()) == 0 for s in resolved_sources(spec))
 
 
 def _t_amalgamate_empty_total(spec):
     if spec.get('kind') != 'F' or spec['op'] != 'amalgamate' or not spec['dst_sparse']:
         return False
-    return all(int((_x_of(s['file'])[s['rows']] != 0).sum()) == 0 for s in spec['sources'])
+    return all(int((s['x'][s['rows']] != 0).sum()) == 0 for s in resolved_sources(spec))
 
 
 def _t_layer2x_empty(spec):
@@ -307,8 +331,8 @@ def sample_view(spec):
         out['src'] = {'shape': [len(f['x']), len(f['x'][0])], 'nnz': int((np.array(f['x']) != 0).sum()),
                       'enc': f['enc'], 'layer': f['layer'], 'dtype': f['dtype'], 'layout': f['layout']}
     if 'sources' in spec:
-        out['sources'] = [{'shape': [len(s['file']['x']), len(s['file']['x'][0])], 'enc': s['file']['enc'],
-                           'layer': s['file']['layer'], 'rows': s['rows']} for s in spec['sources']]
+        out['sources'] = [{'shape': list(s['x'].shape), 'enc': s['file']['enc'], 'layer': s['layer'], 'rows': s['rows'],
+                           'file': s['host'], 'reused': s['reused']} for s in resolved_sources(spec)]
     if 'tree' in spec:
         out['tree'] = [{k: e.get(k) for k in ('path', 'kind', 'shape', 'layout', 'chunks')} for e in spec['tree']]
     return out
@@ -473,15 +497,24 @@ def _frames(f):
     return None, None
 
 
-def write_source(path, f):
+def write_source(path, f, alt=None):
+    """alt = (matrix, encoding): a second matrix of the same shape, stored in the location the main one does not use
+    (layers/alt when the main matrix is X, X when the main matrix is a layer)"""
     x = _x_of(f)
     oc, vc = _frames(f)
     rechunk = None
     if f['layout'] == 'small_chunks':
         rechunk = [f['chunk'], f['chunk']] if f['enc'] == 'dense' else int(f['chunk'])
+    kw = {}
+    if alt is not None:
+        am = materialize.to_encoding(alt[0], alt[1])
+        if f['layer'] is None:
+            kw['extra_layers'] = {'alt': am}
+        else:
+            kw['x_placeholder'] = am
     with quiet():
         materialize.write_h5ad(path, x, f['cells'], f['genes'], enc=f['enc'], layer=f['layer'],
-                               obs_cols=oc, var_cols=vc, rechunk=rechunk)
+                               obs_cols=oc, var_cols=vc, rechunk=rechunk, **kw)
     if f['layout'] == 'contiguous':
         _make_contiguous(path, 'X' if f['layer'] is None else f'layers/{f["layer"]}')
     return x
@@ -683,16 +716,18 @@ def check_fileop(spec):
             _write_tree(src, spec['tree'])
         elif op == 'amalgamate':
             src_rows, parts = [], []
+            rs = resolved_sources(spec)
             for k, s in enumerate(spec['sources']):
-                p = d / f'source_{k}.h5ad'
-                xs = write_source(p, s['file'])
-                parts.append(xs[s['rows']])
-                src_rows.append({'path': str(p), 'rows': list(s['rows']),
-                                 'layer': 'X' if s['file']['layer'] is None else s['file']['layer']})
+                if 'file' in s:
+                    alt = (np.array(s['alt_x'], dtype=np.dtype(s['file']['dtype'])), s['alt_enc']) if 'alt_x' in s else None
+                    write_source(d / f'source_{s.get("id", k)}.h5ad', s['file'], alt=alt)
+            for s in rs:
+                parts.append(s['x'][s['rows']])
+                src_rows.append({'path': str(d / f'source_{s["host"]}.h5ad'), 'rows': list(s['rows']), 'layer': s['layer']})
             want_x = np.vstack(parts)
-            genes = spec['sources'][0]['file']['genes']
+            genes = rs[0]['file']['genes']
             new_cells = [f'n{i}' for i in range(want_x.shape[0])]
-            ocols = {'origin': [k for k, s in enumerate(spec['sources']) for _ in s['rows']]}
+            ocols = {'origin': [k for k, s in enumerate(rs) for _ in s['rows']]}
             vcols = g._frame_cols(len(genes), 'v')
             dst_obs = pd.DataFrame(ocols, index=pd.Index(new_cells))
             dst_var = pd.DataFrame(vcols, index=pd.Index(genes))
@@ -757,21 +792,23 @@ def check_fileop(spec):
                 classes.add('F_layer2x_several_chunks')
         elif op == 'amalgamate':
             want_enc = 'csr_matrix' if spec['dst_sparse'] else 'array'
-            ctx.update(sources=[{'enc': s['file']['enc'], 'layer': s['file']['layer'], 'rows': s['rows'],
-                                 'shape': [len(s['file']['x']), len(s['file']['x'][0])]} for s in spec['sources']],
+            ctx.update(sources=[{'enc': s['file']['enc'], 'layer': s['layer'], 'rows': s['rows'], 'file': s['host'],
+                                 'shape': list(s['x'].shape)} for s in rs],
                        dst_sparse=spec['dst_sparse'])
             check_result_file(dst, want_x, want_enc, _expected_frame(new_cells, ocols), _expected_frame(genes, vcols), ctx)
             tot = int((want_x != 0).sum())
             classes.add('F_amalgamate_sparse_target' if spec['dst_sparse'] else 'F_amalgamate_dense_target')
             classes.add(f'F_amalgamate_{len(spec["sources"])}_sources')
             classes.add('F_nnz_0' if tot == 0 else 'F_nnz_1' if tot == 1 else 'F_nnz_ge_2')
-            for s in spec['sources']:
+            for s in rs:
                 classes.add('F_amalgamate_src_' + s['file']['enc'])
                 if list(s['rows']) != sorted(s['rows']):
                     classes.add('F_amalgamate_unordered_rows')
+                if s['reused']:
+                    classes.add('F_amalgamate_file_used_again_other_matrix' if s['other'] else 'F_amalgamate_file_used_again_same_matrix')
             if any(int((p != 0).sum()) == 0 for p in parts) and tot > 0:
                 classes.add('F_amalgamate_selection_without_entry')
-            nontrivial = tot >= 2 and (len(spec['sources']) >= 2 or list(spec['sources'][0]['rows']) != list(range(want_x.shape[0])))
+            nontrivial = tot >= 2 and (len(rs) >= 2 or list(rs[0]["rows"]) != list(range(want_x.shape[0])))
         else:
             if op == 'h5copy':
                 ex = {'none': [], 'obs': ['obs'], 'var': ['var'], 'X': ['X'], 'layers': ['layers']}[spec['exclude']]
